@@ -91,6 +91,10 @@ FEATURES = [
     ("read_line", r"\bread_line\("), ("command", r"\bcommand\("), ("interpolation", r"\{\s*[A-Za-z_]\w*\s*\}"),
     ("multibyte", r"[^\x00-\x7f]"), ("and", r"\band\b"), ("or", r"\bor\b"), ("not", r"\bnot\b"), ("mod", r"\bmod\b"),
     ("divide", r"\bdivide\b"), ("null", r"\bnull\b"), ("escape", r"\\[nt\\\"']"),
+    # the two scoping idioms of the generator: a captured array mutated through index chains while a function on
+    # the call chain holds a same-named local / parameter; a same-named function in a more recent, lexically
+    # unrelated scope
+    ("shadowed_capture", r"do whole\(\)"), ("fn_name_shadow", r"do host\(\)"),
 ]
 FEATURES = [(n, re.compile(r)) for n, r in FEATURES]
 
@@ -175,6 +179,8 @@ def run_streams(ck, tier, kinds=("corpus", "main", "product"), bias=None, scale=
             if rate < 0.85:
                 ck.notes.append(f"generator acceptance rate {rate:.2f} below 0.85")
         if kind == "product":
+            fam = {"numeric_boundary": " tag=sink=num.", "self_mutation": " tag=sink=selfmut."}
+            ck.extra_cov["product_families"] = {k: sum(1 for r in reqs if v in r) for k, v in fam.items()}
             ck.extra_cov["product_exhaustive"] = True
             ck.extra_cov["product_cases"] = info["cases"]
             ck.extra_cov["product_accepted"] = info["accepted"]
